@@ -3,6 +3,7 @@ C10 — switch and fork conditions evaluate exactly as written in the configurat
 Property theorems only; helper lemmas are in KVerif/Lemmas/Switch*.lean.
 -/
 import KVerif.Lemmas.SwitchChk
+import KVerif.Gen.Consts
 namespace KVerif.Switch
 
 /-- **eval_compile** (full).  For every key-match list `es` in which every operator has at least one
@@ -144,6 +145,19 @@ def forkRight (active : List Nat) (triggers : List Nat) : Bool := active.any (tr
 theorem fork_spec (active triggers : List Nat) :
     forkRight active triggers = true ↔ ∃ k, k ∈ active ∧ k ∈ triggers := by
   simp [forkRight, List.any_eq_true]
+
+/-- **consts_from_source**: the constants the model uses are the ones in the source tree now
+(`KVerif.Gen.Consts` is regenerated from /repo on every run). -/
+theorem consts_from_source :
+    KEY_MAX = Gen.KEY_MAX ∧ MAX_OPCODE_LEN = Gen.SW_MAX_OPCODE_LEN ∧
+    MAX_BOOL_EXPR_DEPTH = Gen.SW_MAX_BOOL_EXPR_DEPTH ∧ OR_VAL = Gen.SW_OR_VAL ∧
+    AND_VAL = Gen.SW_AND_VAL ∧ NOT_VAL = Gen.SW_NOT_VAL ∧ INPUT_VAL = Gen.SW_INPUT_VAL ∧
+    HISTORICAL_INPUT_VAL = Gen.SW_HISTORICAL_INPUT_VAL ∧ LAYER_VAL = Gen.SW_LAYER_VAL ∧
+    BASE_LAYER_VAL = Gen.SW_BASE_LAYER_VAL ∧ TICKS_SINCE_VAL_GT = Gen.SW_TICKS_SINCE_VAL_GT ∧
+    TICKS_SINCE_VAL_LT = Gen.SW_TICKS_SINCE_VAL_LT ∧
+    HISTORICAL_KEYCODE_VAL = Gen.SW_HISTORICAL_KEYCODE_VAL ∧ Gen.SW_OP_MASK = 0xF000 ∧
+    Gen.SW_MAX_KEY_RECENCY = 7 ∧ Gen.ACTION_QUEUE_LEN = 8 ∧ Gen.MAX_LAYERS = 60000 ∧
+    Gen.lossyArmsAsModelled = true := by decide
 
 /-! ### The pinned code was wrong (kept as documentation of the repaired defect) -/
 
